@@ -179,7 +179,21 @@ def rule_wake(ctx: Ctx) -> None:
     # Grant.release latch
     gr = prog.func(RES, "Grant.release")
     guard_latch(ctx, "C09-2", gr, "self._released", "self._resource._do_release(self._amount)", "a grant returns its capacity at most once")
-    ctx.floor("C09-2", 7)
+    # every release path wakes: capacity that comes back is offered to the queue at once, on every (non-raising) path
+    for rel, q in ((RES, "Resource._do_release"), (SEM, "Semaphore.release"), (RWL, "RWLock.release_read"), (RWL, "RWLock.release_write"), (PRE, "PreemptibleResource._do_release")):
+        fn = prog.func(rel, q)
+        rff = ctx.flow(fn)
+        bad = []
+        for p in enumerate_paths(rff, rff.cfg.entry):
+            if p.end != "exit":
+                continue
+            wakes = sum(1 for n in p.nodes for e in own_exprs(n) for c in walk_scope(e) if isinstance(c, ast.Call) and path_of(c.func) == "self._wake_waiters")
+            if wakes != 1:
+                bad.append(f"path [{p.describe()}] calls _wake_waiters {wakes}x")
+        ctx.ob("C09-2", "G2", fn, "release ⇒ wake", not bad,
+               f"{q}: every release offers the freed capacity to the wait queue (one _wake_waiters call on every path) — blocked acquirers are granted as soon as capacity allows"
+               + ("" if not bad else " — " + bad[0]))
+    ctx.floor("C09-2", 12)
 
 
 def rule_blocking_waits(ctx: Ctx) -> None:
@@ -247,12 +261,19 @@ def rule_pool(ctx: Ctx) -> None:
     # rollback on failure
     decs = [s for s in walk_stmts(cc.node.body) if increment_of(s, "self._total_connections") == -1]
     in_handler = False
+    catches_all = False
     for st in walk_stmts(cc.node.body):
         if isinstance(st, ast.Try):
             for h in st.handlers:
                 if any(d in list(walk_stmts(h.body)) for d in decs) and any(isinstance(x, ast.Raise) for x in walk_stmts(h.body)):
                     in_handler = True
+                    # an abandoned set-up (owner crashed, generator closed) raises GeneratorExit, which is not an Exception
+                    catches_all = h.type is None or path_of(h.type) == "BaseException"
+            if st.finalbody and any(d in list(walk_stmts(st.finalbody)) for d in decs):
+                in_handler = catches_all = True
     ctx.ob("C09-4", "G2", cc, decs[0] if decs else None, len(decs) == 1 and in_handler, "a failed set-up gives the reserved slot back (and re-raises)")
+    ctx.ob("C09-4", "G2", cc, "rollback also on abandonment", catches_all,
+           "the rollback covers every way the suspended set-up can end, including the generator being closed (GeneratorExit is a BaseException, not an Exception) — otherwise the slot leaks")
     # min <= max validated at construction (so the warm-up guard implies the max guard)
     init = prog.func(POOL, "ConnectionPool.__init__")
     chk = [s for s in walk_stmts(init.node.body) if isinstance(s, ast.If) and "min_connections" in unparse(s.test) and "max_connections" in unparse(s.test) and any(isinstance(b, ast.Raise) for b in s.body)]
@@ -266,10 +287,10 @@ def rule_pool(ctx: Ctx) -> None:
 
 
 def run(ctx: Ctx) -> None:
-    rule_bounds(ctx)
-    rule_wake(ctx)
-    rule_blocking_waits(ctx)
-    rule_pool(ctx)
+    ctx.guarded(rule_bounds)
+    ctx.guarded(rule_wake)
+    ctx.guarded(rule_blocking_waits)
+    ctx.guarded(rule_pool)
 
 
 MUTANTS = [
@@ -296,6 +317,10 @@ MUTANTS = [
     ("semaphore-future-not-wired", SEM, "        waiter = _Waiter(count=count, callback=acquired.resolve, enqueue_time_ns=enqueue_time)", "        waiter = _Waiter(count=count, callback=lambda: None, enqueue_time_ns=enqueue_time)", "C09-3"),
     ("pool-counts-after-latency", POOL, ["        self._total_connections += 1\n        try:\n", "        self._connections_created += 1\n"], ["        try:\n", "        self._total_connections += 1\n        self._connections_created += 1\n"], "C09-4"),
     ("pool-no-rollback", POOL, "            self._total_connections -= 1\n            raise", "            raise", "C09-4"),
+]
+MUTANTS += [
+    ("rwlock-release-read-wakes-only-when-empty", RWL, "        self._active_readers -= 1\n        self._read_releases += 1\n\n        self._wake_waiters()", "        self._active_readers -= 1\n        self._read_releases += 1\n\n        if self._active_readers == 0:\n            self._wake_waiters()", "C09-2"),
+    ("pool-rollback-only-exception", POOL, "        except BaseException:", "        except Exception:", "C09-4"),
 ]
 REFACTORS = [
     ("resource-acquire-nested", RES, "        if not self._waiters and self._available >= amount:", "        if self._available >= amount and not self._waiters:"),
